@@ -212,15 +212,12 @@ theorem bodyOfRaw_goal_term (t : RTerm) (b : Body) (h : bodyOfRaw (.goal (.term 
   | ok r =>
     obtain ⟨n, isNum, args⟩ := r
     rw [hg] at h
-    change (if isNum = true then Except.error FrontErr.crash else
-      match List.mapM RTerm.toSTerm args with
-      | some as => Except.ok (Body.call n as)
+    change (match List.mapM RTerm.toSTerm args with
+      | some as => Except.ok (if isNum = true then Body.call n [.numfn n as] else Body.call n as)
       | none => Except.error FrontErr.crash) = Except.ok b at h
     split at h
+    · cases h; split <;> exact ⟨_, _, rfl⟩
     · cases h
-    · split at h
-      · cases h; exact ⟨_, _, rfl⟩
-      · cases h
 
 theorem bodyOfRaw_bin (a b : RBody) (mk : Body → Body → Body) (r : Body)
     (h : (do let x ← bodyOfRaw a; let y ← bodyOfRaw b; pure (mk x y) : Except FrontErr Body) = .ok r) :
